@@ -216,7 +216,7 @@ func (cg *caseGen) randomGrammar(n int) {
 		cg.rules[i] = &pvcase.Rule{Name: cg.names[i], Expr: e}
 		cg.ruleNull[i] = null
 		if cg.chance(cg.f.displayP) {
-			cg.rules[i].DisplayName = "Disp" + cg.names[i]
+			cg.rules[i].DisplayName = cg.displayName(i)
 		}
 	}
 }
@@ -388,6 +388,9 @@ func (cg *caseGen) lrGrammar() {
 		cg.names = append(cg.names, r.Name)
 		if cg.chance(cg.f.displayP) {
 			r.DisplayName = "Disp" + r.Name
+			if cg.chance(0.4) {
+				r.DisplayName = "item" // shared by several rules: messages of different rules can coincide
+			}
 		}
 	}
 }
@@ -440,6 +443,44 @@ func renumber(c *pvcase.Case) {
 	}
 }
 
+// displayName draws the display name of rule i: usually its own, sometimes one that several rules share or the NAME
+// of another rule (the message prefix shows the text, not the identity of the rule: identical messages from
+// different rules are one message for the error list).
+func (cg *caseGen) displayName(i int) string {
+	switch {
+	case cg.chance(0.35):
+		return "item"
+	case cg.chance(0.1) && len(cg.names) > 1:
+		return cg.names[(i+1)%len(cg.names)]
+	}
+	return "Disp" + cg.names[i]
+}
+
+// dupErrShape: two DIFFERENT rules with the same display name, one starting with a reference to the other, whose
+// actions return the same error: the two recorded errors have the same position, prefix and text, i.e. they are
+// one message for the error list (errors are de-duplicated by their message, not by where they came from).
+func (cg *caseGen) dupErrShape() {
+	i := cg.r.IntN(len(cg.rules) - 1)
+	j := i + 1 + cg.r.IntN(len(cg.rules)-i-1)
+	ri, rj := cg.rules[i], cg.rules[j]
+	aj := rj.Expr
+	if aj.Kind != pvcase.KAct {
+		aj = un(pvcase.KAct, rj.Expr)
+		rj.Expr = aj
+	}
+	ai := un(pvcase.KAct, seqOf(refTo(rj.Name), un(pvcase.KOpt, ri.Expr)))
+	ri.Expr = ai
+	name := "item"
+	if cg.chance(0.3) {
+		name = "" // no display names: then the rule NAMES differ and the two messages are two messages
+	}
+	ri.DisplayName, rj.DisplayName = name, name
+	if j < len(cg.refd) {
+		cg.refd[j] = true
+	}
+	cg.dupActs = []*pvcase.Expr{ai, aj}
+}
+
 func fuelFor(maxExpr uint64) uint64 {
 	if maxExpr == 0 {
 		return 400
@@ -463,7 +504,12 @@ func (g *generator) budget() uint64 {
 
 // tightBudget spreads budgets around what a small parse needs.
 func (g *generator) tightBudget() uint64 {
-	switch x := g.r.IntN(20); {
+	switch x := g.r.IntN(22); {
+	case x >= 20:
+		// "for all budgets": the far end of the range (the grammar terminates on its own, so these
+		// budgets are never exhausted and the result must be the unbounded one)
+		huge := []uint64{1 << 32, 1<<32 + 7, 1<<32 + 1, 1<<33 + 5, 1<<40 + 12, 1<<63 + 3, 1<<64 - 2, 1<<31 + 9, 1 << 16, 1<<32 - 1}
+		return huge[g.r.IntN(len(huge))]
 	case x < 4:
 		return uint64(1 + g.r.IntN(10))
 	case x < 11:
@@ -618,6 +664,10 @@ func (g *generator) genCase(prof string) ([]*pvcase.Case, *caseGen) {
 				cg.rules[0].Expr = e
 			}
 		}
+		cg.dupActs = nil
+		if prof != "lr" && !divergent && cg.f.act && cg.f.errP > 0 && len(cg.rules) >= 2 && cg.chance(0.12) {
+			cg.dupErrShape()
+		}
 		c.Grammar.Rules = cg.rules
 		if (pvterm.Budgeted(c) && (cg.f.wild || divergent)) || pvterm.Check(c) == nil {
 			break
@@ -633,6 +683,14 @@ func (g *generator) genCase(prof string) ([]*pvcase.Case, *caseGen) {
 		}
 	}
 	cg.assignBlocks()
+	for _, a := range cg.dupActs {
+		for _, b := range cg.blocks {
+			if b.ID == a.Blk {
+				b.Err = &pvcase.Fault{Kind: 'e', Msg: "dup", Always: true}
+				b.Panic = nil
+			}
+		}
+	}
 	c.Blocks = cg.blocks
 	renumber(c)
 	cg.stores(c)
